@@ -19,7 +19,11 @@ def run_one(m):
         shutil.copytree("/repo/fickling", os.path.join(d, "fickling"))
         f = os.path.join(d, "fickling", m["file"])
         before = open(f).read()
-        subprocess.run(["sed", "-i", m["sed"], f], check=True)
+        if m.get("patch"):          # a multi-hunk edit kept as a diff (relative to /verif), optionally followed by the sed
+            with open(os.path.join(ROOT, m["patch"])) as pf:
+                subprocess.run(["patch", "-p1", "-s", "-d", d], stdin=pf, check=True)
+        if m.get("sed"):
+            subprocess.run(["sed", "-i", m["sed"], f], check=True)
         if open(f).read() == before:
             return m, "NOT-APPLIED", ""
         env = dict(os.environ, VERIF_REPO=d, VERIF_EVIDENCE_DIR=os.path.join(d, "evidence"), VERIF_REPLAY_DIR=os.path.join(d, "replays"))
